@@ -753,4 +753,46 @@ def rvInitGenesis (g : RvGen) (canPay : Bool) : Out Unit :=
   | .bad => .panic "rvesting.InitGenesis: panic(err) AccAddressFromBech32"
   | .good => if canPay then .ok () else .panic "rvesting.InitGenesis: panic(err) SendCoinsFromAccountToModule"
 
+/-! ## app life cycle: InitChain and the v0.2 upgrade over a genesis account table
+
+`auth.accounts` of a genesis may hold an account of any registered kind at any address — also at addresses the app itself
+writes at start-up (`SetEVMCode` for the five system contracts in `InitChainer` and in the v0.2 upgrade handler) or looks up
+(`GetModuleAccount` of the modules initialised at genesis). -/
+
+inductive AccKind | base | eth | module | contVesting | delayedVesting | periodicVesting | permanentLocked
+  deriving DecidableEq, Repr
+
+/-- where the genesis account sits. `moduleInit`: module-account address looked up with `GetModuleAccount` during InitChain
+(fee_collector, distribution, the two staking pools, gov, transfer, xibc packet, aggregate); `moduleLazy`: module-account
+address not touched at start-up (evm, interchainaccounts, the rvesting pool). -/
+inductive AddrClass | sysContract | moduleInit | moduleLazy | control
+  deriving DecidableEq, Repr
+
+/-- `auth` genesis validation of the account: a `ModuleAccount` must sit at the address derived from its name, so it cannot be
+valid at a system-contract (or any other non-module) address; every other kind is accepted anywhere. -/
+def lcValidate (k : AccKind) (a : AddrClass) : Out Unit :=
+  if k = .module ∧ (a = .sysContract ∨ a = .control) then .err "module-account-address" else .ok ()
+
+/-- `app.SetEVMCode`: builds a FRESH account from the configured prototype (`NewAccountWithAddress` → `*EthAccount`), sets the
+code hash and stores it — it OVERWRITES whatever account is stored at the address and never looks at it, so the unchecked
+assertion `.(*ethermint.EthAccount)` is on a value constructed in place. Total. -/
+def setEVMCode (_existing : Option AccKind) : Out AccKind := .ok .eth
+
+/-- the variant that re-uses a stored account (`GetAccount`, else a new one) and keeps the unchecked assertion. -/
+def setEVMCodeReuse (existing : Option AccKind) : Out AccKind :=
+  match existing with
+  | none | some .eth => .ok .eth
+  | some _ => .panic "app.SetEVMCode: account.(*ethermint.EthAccount) on a stored account of another kind"
+
+/-- InitChain for a validated genesis holding one account of kind `k` at an address of class `a`.
+cosmos-sdk `GetModuleAccountAndPermissions` panics ("account is not a module account") when the stored account at a module
+address is of another kind — cosmos-sdk behaviour on every chain, recorded here so that the observations agree. -/
+def lcInitChain (k : AccKind) (a : AddrClass) : Out Unit :=
+  if a = .moduleInit ∧ k ≠ .module then .panic "cosmos-sdk auth: account is not a module account" else
+  if a = .sysContract then (match setEVMCode (some k) with | .ok _ => .ok () | .err e => .err e | .panic m => .panic m) else .ok ()
+
+/-- the v0.2 upgrade handler (upgrade BeginBlocker): `SetEVMCode` for agent / packet / endpoint / execute again. -/
+def lcUpgrade (k : AccKind) (a : AddrClass) : Out Unit :=
+  if a = .sysContract then (match setEVMCode (some k) with | .ok _ => .ok () | .err e => .err e | .panic m => .panic m) else .ok ()
+
 end TM.NoPanic
